@@ -418,6 +418,9 @@ def _run_ops(case):
                     assert o[1] != o[2]
                     store[o[1]].prepend(store[o[2]])
                 flags.append(True)
+            except (MemoryError, CaseTimeout):
+                store = None      # release whatever blew up before reporting
+                raise
             except Exception as e:
                 flags.append(type(e).__name__)
         qs = []
@@ -611,8 +614,44 @@ def _run_rewrite(case):
         sys.modules.pop(os.path.splitext(os.path.basename(fn))[0], None)
 
 
+class CaseTimeout(Exception):
+    pass
+
+
+@contextlib.contextmanager
+def _guard(seconds=20.0, extra_bytes=1 << 30):
+    """a broken implementation may loop forever or allocate without bound (a.extend(a)): turn both into
+    exceptions of the case instead of a hung check.  Limits are restored afterwards (the same process may
+    later start coqc)."""
+    import signal, resource
+
+    def _alarm(*a):
+        raise CaseTimeout("case exceeded %.0fs" % seconds)
+    old_handler = signal.signal(signal.SIGALRM, _alarm)
+    soft, hard = resource.getrlimit(resource.RLIMIT_AS)
+    try:
+        with open("/proc/self/statm") as f:
+            vsz = int(f.read().split()[0]) * os.sysconf("SC_PAGE_SIZE")
+        lim = vsz + extra_bytes
+        if hard != resource.RLIM_INFINITY:
+            lim = min(lim, hard)
+        resource.setrlimit(resource.RLIMIT_AS, (lim, hard))
+    except Exception:
+        pass
+    signal.setitimer(signal.ITIMER_REAL, seconds)
+    try:
+        yield
+    finally:
+        signal.setitimer(signal.ITIMER_REAL, 0)
+        signal.signal(signal.SIGALRM, old_handler)
+        try:
+            resource.setrlimit(resource.RLIMIT_AS, (soft, hard))
+        except Exception:
+            pass
+
+
 def run_impl(case):
-    with contextlib.redirect_stdout(io.StringIO()):
+    with _guard(), contextlib.redirect_stdout(io.StringIO()):
         k = case["kind"]
         if k == "ops":
             return _run_ops(case)
